@@ -8,7 +8,7 @@ RULE = ("the C01 generator restricted to enumeration members whose NAME exists i
         "regions where only some goal states have lanelets, first occurrences of signs. distinct = structural "
         "fingerprint; non-trivial = has >=1 obstacle or sign/light")
 ANCHORS = ["ProtobufFileWriter.write_to_file", "ProtobufFileReader.open"]
-REQUIRED = ["environment.time-with-date", "light.cycle-without-elements", "trajectories-of-nested-state-classes.KSState-then-STState", "trajectories-of-nested-state-classes.MBState-then-KSState",
+REQUIRED = ["one-writer.scenario-edited-between-writes", "environment.time-with-date", "light.cycle-without-elements", "trajectories-of-nested-state-classes.KSState-then-STState", "trajectories-of-nested-state-classes.MBState-then-KSState",
             "geo-transformation.non-neutral-parameters=s", "geo-transformation.non-neutral-parameters=r",
             "geo-transformation.non-neutral-parameters=", "contract.pb.write_to_file", "role.static", "role.dynamic", "role.phantom", "role.environment",
             "prediction.trajectory", "prediction.set", "prediction.none", "dynamic.default-arguments",
